@@ -61,7 +61,7 @@ def apply_edits(tmp, m):
 
 def run_rules(root, prop, spec):
     fx = F.export(root=root)
-    ctx = engine.Ctx(fx, root, prop, "thorough")
+    ctx = engine.Ctx(fx, root, prop, "mutant")
     for rule in spec["rules"]:
         ctx.run_rule(rule)
     bad = {i.key for i in ctx.instances if not i.ok}
